@@ -156,7 +156,16 @@ def run_check(ctx, mod, ev):
     # 4 correspondence -----------------------------------------------------------------
     corr = {"disagreements": []}
     if driver_ok:
-        corr = mod.correspondence(ctx)
+        try:
+            corr = mod.correspondence(ctx)
+        except Exception as e:  # noqa: BLE001
+            crash = impl_crash(e)
+            if crash is None:
+                raise
+            # an exception escaping from the implementation where the harness (validated on the unchanged tree)
+            # expects none: the code no longer behaves like the model at this call - the tie is broken
+            corr = {"disagreements": [{"input": "harness call into the implementation", "model": "returns",
+                                       "impl": crash}], "evaluations": 0}
         for k in ("evaluations", "distinct_nontrivial", "rule", "samples", "exhaustive", "branches", "distribution"):
             if k in corr:
                 cov[k] = corr[k]
@@ -174,7 +183,14 @@ def run_check(ctx, mod, ev):
 
     # 5 oracle / failing-input search --------------------------------------------------------
     findings = C.load_findings(prop)
-    failures = mod.oracle(ctx, corr.get("disagreements", []), bool(broken))
+    try:
+        failures = mod.oracle(ctx, corr.get("disagreements", []), bool(broken))
+    except Exception as e:  # noqa: BLE001
+        crash = impl_crash(e)
+        if crash is None:
+            raise
+        failures = []
+        broken.append({"kind": "oracle-crashed-in-implementation", "detail": crash})
     cov["oracle"] = getattr(ctx, "oracle_stats", {})
     known, unknown = [], []
     for f in failures:
@@ -243,6 +259,19 @@ def run_check(ctx, mod, ev):
         f"oracle_failures={len(failures)} (known {len(known)}) -> exit {rc} in {ctx.elapsed():.1f}s"
     )
     return rc
+
+
+def impl_crash(e):
+    """traceback text if the exception was raised by code of the implementation under test (innermost frame in
+    $VERIF_REPO/asyncfix), else None (= a defect of the harness itself: infrastructure error, exit 2)"""
+    import traceback
+
+    tb = traceback.extract_tb(e.__traceback__)
+    root = os.path.realpath(os.path.join(os.environ.get("VERIF_REPO", "/repo"), "asyncfix")) + os.sep
+    if not tb or not os.path.realpath(tb[-1].filename).startswith(root):
+        return None
+    return "raised " + type(e).__name__ + ": " + str(e)[:300] + " | " + " <- ".join(
+        f"{os.path.basename(f.filename)}:{f.lineno}:{f.name}" for f in reversed(tb[-6:]))
 
 
 def tail_errors(log):
